@@ -237,3 +237,170 @@ def reachable(graph: dict[str, set[str]], roots: Iterable[str]) -> set[str]:
         seen.add(v)
         todo.extend(w for w in graph.get(v, ()) if w not in seen and w in graph)
     return seen
+
+
+# ------------------------------------------------------------------ must-consume, FIRST/LAST, adjacency
+def term_key(it) -> str:
+    if isinstance(it, Lit):
+        return "'" + it.value + "'"
+    if isinstance(it, Tok):
+        return it.name
+    raise TypeError(it)
+
+
+def must_consume(rules: dict[str, Rule], alt_filter=None) -> tuple[dict[str, frozenset], Callable]:
+    """Greatest fixpoint: terminals every successful match of a rule consumes (or positively looks ahead at).
+    Returns (per-rule sets, function computing the set of an item list)."""
+    UNIVERSE = None  # stands for "everything" during the iteration
+    must: dict[str, Optional[frozenset]] = {n: UNIVERSE for n in rules}
+
+    def of_item(it: Item) -> Optional[frozenset]:
+        if isinstance(it, (Lit, Tok)):
+            return frozenset([term_key(it)])
+        if isinstance(it, Ref):
+            return must.get(it.name, frozenset()) if it.name in rules else frozenset()
+        if isinstance(it, Group):
+            return inter([of_items(a.items) for a in it.alts if alt_filter is None or alt_filter(a)])
+        if isinstance(it, (Opt, Cut)):
+            return frozenset()
+        if isinstance(it, Rep):
+            return of_item(it.item) if it.min else frozenset()
+        if isinstance(it, Gather):
+            return of_item(it.item)
+        if isinstance(it, Look):
+            return of_item(it.item) if it.positive else frozenset()
+        if isinstance(it, Forced):
+            return of_item(it.item)
+        raise TypeError(it)
+
+    def of_items(items) -> Optional[frozenset]:
+        out: set = set()
+        for ni in items:
+            s = of_item(ni.item)
+            if s is UNIVERSE:
+                return UNIVERSE
+            out |= s
+        return frozenset(out)
+
+    def inter(sets) -> Optional[frozenset]:
+        sets = [s for s in sets if s is not UNIVERSE]
+        if not sets:
+            return UNIVERSE
+        out = set(sets[0])
+        for s in sets[1:]:
+            out &= s
+        return frozenset(out)
+
+    changed = True
+    while changed:
+        changed = False
+        for r in rules.values():
+            new = inter([of_items(a.items) for a in r.alts if alt_filter is None or alt_filter(a)])
+            if new != must[r.name]:
+                must[r.name] = new
+                changed = True
+    final = {n: (s if s is not None else frozenset()) for n, s in must.items()}
+    for n in must:
+        must[n] = final[n]
+    return final, of_items
+
+
+def first_last(rules: dict[str, Rule], alt_ok=None):
+    """FIRST and LAST terminal sets under the CFG reading (lookaheads and cuts are transparent)."""
+    nullable = compute_nullable(rules)
+    item_n = make_item_nullable(nullable)
+    first: dict[str, set] = {n: set() for n in rules}
+    last: dict[str, set] = {n: set() for n in rules}
+
+    def fl_item(it: Item, which: dict) -> set:
+        if isinstance(it, (Lit, Tok)):
+            return {term_key(it)}
+        if isinstance(it, Ref):
+            return which.get(it.name, set())
+        if isinstance(it, Group):
+            out: set = set()
+            for a in it.alts:
+                if alt_ok is None or alt_ok(a):
+                    out |= fl_alt(a.items, which)
+            return out
+        if isinstance(it, (Opt, Rep, Forced)):
+            return fl_item(it.item, which)
+        if isinstance(it, Gather):
+            return fl_item(it.item, which)
+        return set()
+
+    def consuming(items):
+        return [ni.item for ni in items if not isinstance(ni.item, (Look, Cut))]
+
+    def fl_alt(items, which) -> set:
+        seq = consuming(items)
+        if which is last:
+            seq = list(reversed(seq))
+        out: set = set()
+        for it in seq:
+            out |= fl_item(it, which)
+            if not item_n(it):
+                break
+        return out
+
+    changed = True
+    while changed:
+        changed = False
+        for r in rules.values():
+            for which in (first, last):
+                new = set(which[r.name])
+                for a in r.alts:
+                    if alt_ok is None or alt_ok(a):
+                        new |= fl_alt(a.items, which)
+                if new != which[r.name]:
+                    which[r.name] = new
+                    changed = True
+    return first, last, item_n, fl_item, consuming
+
+
+def adjacency(rules: dict[str, Rule], alt_ok=None) -> set[tuple[str, str]]:
+    """Pairs (a, b) of terminals that can be adjacent in a token sequence derived by the (filtered) grammar."""
+    first, last, item_n, fl_item, consuming = first_last(rules, alt_ok)
+    pairs: set[tuple[str, str]] = set()
+
+    def seq_pairs(items):
+        seq = consuming(items)
+        for i, x in enumerate(seq):
+            lx = fl_item(x, last)
+            for y in seq[i + 1:]:
+                fy = fl_item(y, first)
+                for a in lx:
+                    for b in fy:
+                        pairs.add((a, b))
+                if not item_n(y):
+                    break
+        for it in seq:
+            inner(it)
+
+    def inner(it: Item):
+        if isinstance(it, Group):
+            for a in it.alts:
+                if alt_ok is None or alt_ok(a):
+                    seq_pairs(a.items)
+        elif isinstance(it, Rep):
+            inner(it.item)
+            for a in fl_item(it.item, last):
+                for b in fl_item(it.item, first):
+                    pairs.add((a, b))
+        elif isinstance(it, Gather):
+            inner(it.item)
+            inner(it.sep)
+            for a in fl_item(it.item, last):
+                for b in fl_item(it.sep, first):
+                    pairs.add((a, b))
+            for a in fl_item(it.sep, last):
+                for b in fl_item(it.item, first):
+                    pairs.add((a, b))
+        elif isinstance(it, (Opt, Forced)):
+            inner(it.item)
+
+    for r in rules.values():
+        for a in r.alts:
+            if alt_ok is None or alt_ok(a):
+                seq_pairs(a.items)
+    return pairs
